@@ -50,6 +50,11 @@ func (e *walRecordEnvelope[V, H, A]) setEntry(entry wal.Entry[V, H, A]) error {
 		}
 		e.EntryKind = walEntryProposal
 		proposal := *entry
+		if entry.Value != nil {
+			// the value is encoded at Flush time: do not share it with the caller until then
+			value := *entry.Value
+			proposal.Value = &value
+		}
 		e.ProposalEntry = &proposal
 	case *wal.Prevote[H, A]:
 		if entry == nil {
@@ -57,6 +62,10 @@ func (e *walRecordEnvelope[V, H, A]) setEntry(entry wal.Entry[V, H, A]) error {
 		}
 		e.EntryKind = walEntryPrevote
 		prevote := *entry
+		if entry.ID != nil {
+			id := *entry.ID
+			prevote.ID = &id
+		}
 		e.PrevoteEntry = &prevote
 	case *wal.Precommit[H, A]:
 		if entry == nil {
@@ -64,6 +73,10 @@ func (e *walRecordEnvelope[V, H, A]) setEntry(entry wal.Entry[V, H, A]) error {
 		}
 		e.EntryKind = walEntryPrecommit
 		precommit := *entry
+		if entry.ID != nil {
+			id := *entry.ID
+			precommit.ID = &id
+		}
 		e.PrecommitEntry = &precommit
 	case *wal.Timeout:
 		if entry == nil {
